@@ -459,7 +459,7 @@ void h_ctor_free(void) {
     QV_IN(size_t, objsize);
     QV_IN(int, opt);
     QV_ASSUME(max <= QV_CAP(VCAP) && objsize <= 64 && opt >= 0 && opt < 16);
-    gh_lock_depth = 0; gh_lock_acquired = 0;
+    gh_lock_depth = 0; gh_lock_acquired = 0; gh_lock_outer = 0;
     errno = 0;
     qvector_t *v = qvector(max, objsize, opt);
     if (v == NULL) {
